@@ -37,6 +37,7 @@ def build(chk):
     T15.c_findvwLTE(chk)
     T15.c_eqWall(chk)
     T15.c_maxAl(chk)
+    c_manager_hydro(chk)
 
 
 def c_entropy(chk):
@@ -171,3 +172,48 @@ def c_findvwLTE(chk):
     rets = sel(paths)
     if rets:
         chk.canary("findvwLTE.sentinel", rets[0].pc, sp.false, func=fn)
+
+
+def c_manager_hydro(chk):
+    """WallGoManager._initHydrodynamics / wallSpeedLTE: the LTE velocity the manager reports is findvwLTE() of a Hydrodynamics object built
+    from the thermodynamics of THIS setup (Hydrodynamics copies Tn, vJ, vMin, the temperature range and its template at construction, so a
+    reused object answers for an earlier nucleation temperature): _initHydrodynamics constructs a new object from the argument and the
+    configured tmax/tmin/tolerances, stores it, and reads nothing an earlier setup left on the manager."""
+    fn = "manager.WallGoManager._initHydrodynamics"
+    cfgH = SymObj(None, None, label="configHydrodynamics", attrs={k: real(f"cfg.{k}") for k in ("tmax", "tmin", "relativeTol", "absoluteTol")})
+    th = SymObj("Thermodynamics", "thermodynamics", label="thermodynamics.new")
+
+    def mk(it):
+        man = SymObj("WallGoManager", "manager", label="manager", rest="stale")
+        man.attrs["config"] = SymObj(None, None, label="config", attrs={"configHydrodynamics": cfgH})
+        return man, [th], {}, {"man": man}
+    reg = {"Hydrodynamics.__new__": lambda it, cref, a, k: (it.event(kind="new", cls="Hydrodynamics", args=list(a), kwargs=dict(k)),
+                                                             SymObj("Hydrodynamics", "hydrodynamics", label=it.fresh_name("hydrodynamics.built")))[1]}
+    paths = chk.summarize("manager", "WallGoManager._initHydrodynamics", mk, registry=reg)
+    rets = sel(paths)
+    if not rets:
+        chk.undecided.append("_initHydrodynamics: no returning path")
+    for i, p in enumerate(rets):
+        man = p.state["man"]
+        news = [e for e in p.events if e.get("kind") == "new"]
+        ok = (len(news) == 1 and news[0]["args"][:1] == [th] and len(news[0]["args"]) + len(news[0]["kwargs"]) == 5
+              and isinstance(man.attrs.get("hydrodynamics"), SymObj) and man.attrs["hydrodynamics"].label.startswith("hydrodynamics.built"))
+        chk.vc(f"_initHydrodynamics.fresh-solver-from-this-setup.{i}", p.pc, sym.to_sym(bool(ok)), func=fn, kind="frame")
+        if ok:
+            a = list(news[0]["args"]) + [news[0]["kwargs"].get(n) for n in ("tmax", "tmin", "rtol", "atol")][len(news[0]["args"]) - 1:]
+            chk.vc(f"_initHydrodynamics.configured-range-and-tolerances.{i}", p.pc,
+                   And(Eq(a[1], real("cfg.tmax")), Eq(a[2], real("cfg.tmin")), Eq(a[3], real("cfg.relativeTol")), Eq(a[4], real("cfg.absoluteTol"))), func=fn)
+    # wallSpeedLTE: the hydrodynamics object of the manager, asked once
+    fn2 = "manager.WallGoManager.wallSpeedLTE"
+    vlte = real("vwLTE.answer")
+
+    def mk2(it):
+        hy = SymObj("Hydrodynamics", "hydrodynamics", label="hydrodynamics.current")
+        man = SymObj("WallGoManager", "manager", label="manager", rest="stale")
+        man.attrs["hydrodynamics"] = hy
+        return man, [], {}, {"hy": hy}
+    reg2 = {"Hydrodynamics.findvwLTE": lambda it, so, a, k: (it.event(kind="contract-call", name="findvwLTE", obj=so), vlte)[1]}
+    for i, p in enumerate(sel(chk.summarize("manager", "WallGoManager.wallSpeedLTE", mk2, registry=reg2))):
+        calls = [e for e in p.events if e.get("name") == "findvwLTE"]
+        chk.vc(f"wallSpeedLTE.is-findvwLTE-of-the-current-solver.{i}", p.pc,
+               And(sym.to_sym(len(calls) == 1 and calls[0]["obj"] is p.state["hy"]), Eq(p.value, vlte)), func=fn2)
